@@ -318,7 +318,9 @@ class Retrieve:
                 reader = MDMFSlotReadProxy(server.get_storage_server(),
                                            self._storage_index, shnum, None)
             reader.server = server
-            self.readers[shnum] = reader
+            # the same share number may be held by several servers: keep a
+            # reader for each, so that a bad copy can be replaced by another
+            self.readers[(shnum, server)] = reader
 
         if len(self.remaining_sharemap) < k:
             self._raise_notenoughshareserror()
@@ -510,7 +512,10 @@ class Retrieve:
 
         self.log("adding %d new servers to the active list" % len(new_shnums))
         for shnum in new_shnums:
-            reader = self.readers[shnum]
+            # only servers that have not been marked bad remain in the map
+            server = sorted(self.remaining_sharemap[shnum],
+                            key=lambda s: s.get_serverid())[0]
+            reader = self.readers[(shnum, server)]
             self._active_readers.append(reader)
             self.log("added reader for share %d" % shnum)
             # Each time we add a reader, we check to see if we need the
